@@ -9,55 +9,58 @@
 EXTENDS Integers, Sequences, FiniteSets, TLC, Json, IOUtils, CSV, SequencesExt
 
 Trace == ndJsonDeserialize(IOEnv.VERIF_TRACE)
-VARIABLES l, owner, joinedKey, stopping, joinOk, leaveCb, routed, refused, bad
-Init == l = 1 /\ owner = <<>> /\ joinedKey = <<>> /\ stopping = <<>> /\ joinOk = <<>> /\ leaveCb = <<>> /\ routed = <<>> /\ refused = {} /\ bad = <<>>
+VARIABLES l, owner, joinedKey, stopping, joinOk, leaveCb, routed, refused, callKey, bad
+Init == l = 1 /\ owner = <<>> /\ joinedKey = <<>> /\ stopping = <<>> /\ joinOk = <<>> /\ leaveCb = <<>> /\ routed = <<>> /\ refused = {} /\ callKey = <<>> /\ bad = <<>>
 E == Trace[l]
 Ext(fn, k, v) == [y \in DOMAIN fn \cup {k} |-> IF y = k THEN v ELSE fn[y]]
 Without(fn, k) == [y \in DOMAIN fn \ {k} |-> fn[y]]
 Get(fn, k, d) == IF k \in DOMAIN fn THEN fn[k] ELSE d
 Flag(ok, what) == IF ok THEN bad ELSE Append(bad, [l |-> l, what |-> what])
-Same == UNCHANGED <<owner, joinedKey, stopping, joinOk, leaveCb, routed, refused>>
+Same == UNCHANGED <<owner, joinedKey, stopping, joinOk, leaveCb, routed, refused, callKey>>
 
 MJoinOk == /\ E.ev = "M.join.ok"
            /\ bad' = Flag(E.key \notin DOMAIN owner, "JoinOverwroteOwner")
            /\ owner' = Ext(owner, E.key, E.conn) /\ joinedKey' = Ext(joinedKey, E.conn, E.key)
-           /\ UNCHANGED <<stopping, joinOk, leaveCb, routed, refused>>
+           /\ UNCHANGED <<stopping, joinOk, leaveCb, routed, refused, callKey>>
 MJoinRefused == /\ E.ev = "M.join.refused"
                 /\ bad' = Flag(E.key \in DOMAIN owner /\ Get(owner, E.key, -1) # E.conn, "RefusedFreeKey")
-                /\ refused' = refused \cup {E.conn} /\ UNCHANGED <<owner, joinedKey, stopping, joinOk, leaveCb, routed>>
+                /\ refused' = refused \cup {E.conn} /\ UNCHANGED <<owner, joinedKey, stopping, joinOk, leaveCb, routed, callKey>>
 SBegin == /\ E.ev = "S.begin"
           /\ bad' = Flag(E.key = Get(joinedKey, E.c, ""), "StopWithForeignKey")
-          /\ stopping' = Ext(stopping, E.c, E.key) /\ UNCHANGED <<owner, joinedKey, joinOk, leaveCb, routed, refused>>
+          /\ stopping' = Ext(stopping, E.c, E.key) /\ UNCHANGED <<owner, joinedKey, joinOk, leaveCb, routed, refused, callKey>>
 MLeave == /\ E.ev = "M.leave"
           /\ IF E.key \in DOMAIN owner
              THEN /\ bad' = Flag(Get(stopping, owner[E.key], "?") = E.key, "LeaveFreedForeignKey")
                   /\ owner' = Without(owner, E.key)
              ELSE /\ bad' = Flag(E.key = "" \/ \E c \in DOMAIN stopping : stopping[c] = E.key, "LeaveOfUnknownKey") /\ owner' = owner
-          /\ UNCHANGED <<joinedKey, stopping, joinOk, leaveCb, routed, refused>>
+          /\ UNCHANGED <<joinedKey, stopping, joinOk, leaveCb, routed, refused, callKey>>
 JoinCb == /\ E.ev = "join"
-          /\ IF E.ok THEN /\ bad' = Flag(Get(joinedKey, E.c, "?") = E.key /\ Get(joinOk, E.c, 0) = 0, "JoinCallback")
+          /\ IF E.ok THEN /\ bad' = Flag(Get(joinedKey, E.c, "?") = E.key /\ Get(joinOk, E.c, 0) # 1, "JoinCallback")
                           /\ joinOk' = Ext(joinOk, E.c, 1)
              ELSE /\ bad' = Flag(E.c \notin DOMAIN joinedKey, "RefusedCallbackForOwner") /\ joinOk' = Ext(joinOk, E.c, 2)
-          /\ UNCHANGED <<owner, joinedKey, stopping, leaveCb, routed, refused>>
+          /\ UNCHANGED <<owner, joinedKey, stopping, leaveCb, routed, refused, callKey>>
 LeaveCb == /\ E.ev = "leave"
            /\ bad' = Flag(E.key = Get(joinedKey, E.c, "") /\ E.c \notin DOMAIN leaveCb, "LeaveCallback")
-           /\ leaveCb' = Ext(leaveCb, E.c, E.key) /\ UNCHANGED <<owner, joinedKey, stopping, joinOk, routed, refused>>
+           /\ leaveCb' = Ext(leaveCb, E.c, E.key) /\ UNCHANGED <<owner, joinedKey, stopping, joinOk, routed, refused, callKey>>
+\* the caller's key is looked up as it was given (an all-zero phone, a key with leading zeros, the empty key)
+CmdCall == /\ E.ev = "cmd_call" /\ callKey' = Ext(callKey, E.k, E.key) /\ bad' = bad
+           /\ UNCHANGED <<owner, joinedKey, stopping, joinOk, leaveCb, routed, refused>>
 MRoute == /\ E.ev = "M.route.before"
-          /\ bad' = Flag(E.key \in DOMAIN owner, "RoutedToOfflineKey")
-          /\ routed' = Ext(routed, E.k, Get(owner, E.key, 0)) /\ UNCHANGED <<owner, joinedKey, stopping, joinOk, leaveCb, refused>>
+          /\ bad' = Flag(E.key \in DOMAIN owner /\ Get(callKey, E.k, E.key) = E.key, IF E.key \in DOMAIN owner THEN "LookedUpUnderAnotherKey" ELSE "RoutedToOfflineKey")
+          /\ routed' = Ext(routed, E.k, Get(owner, E.key, 0)) /\ UNCHANGED <<owner, joinedKey, stopping, joinOk, leaveCb, refused, callKey>>
 MNotExist == /\ E.ev = "M.route.notexist"
-             /\ bad' = Flag(E.key \notin DOMAIN owner, "NotExistForOnlineKey")
-             /\ routed' = Ext(routed, E.k, 0) /\ UNCHANGED <<owner, joinedKey, stopping, joinOk, leaveCb, refused>>
+             /\ bad' = Flag(E.key \notin DOMAIN owner /\ Get(callKey, E.k, E.key) \notin DOMAIN owner, "NotExistForOnlineKey")
+             /\ routed' = Ext(routed, E.k, 0) /\ UNCHANGED <<owner, joinedKey, stopping, joinOk, leaveCb, refused, callKey>>
 CmdWritten == /\ E.ev = "cmd_written"
               /\ bad' = Flag(Get(routed, E.k, -1) = E.c, "CommandToWrongConnection") /\ Same
 CmdRet == /\ E.ev = "cmd_ret"
           /\ bad' = Flag(/\ (E.kind = "notexist") = (Get(routed, E.k, -1) = 0)
                           /\ (E.kind = "notexist" => E.ms < 400),              \* "at once": whatever other keys are doing
                           IF E.kind = "notexist" /\ E.ms >= 400 THEN "NotExistNotAtOnce" ELSE "NotExistResult") /\ Same
-Other == /\ E.ev \notin {"M.join.ok", "M.join.refused", "S.begin", "M.leave", "join", "leave", "M.route.before", "M.route.notexist", "cmd_written", "cmd_ret"}
+Other == /\ E.ev \notin {"cmd_call", "M.join.ok", "M.join.refused", "S.begin", "M.leave", "join", "leave", "M.route.before", "M.route.notexist", "cmd_written", "cmd_ret"}
          /\ bad' = bad /\ Same
 Next == l <= Len(Trace) /\ l' = l + 1
-        /\ (MJoinOk \/ MJoinRefused \/ SBegin \/ MLeave \/ JoinCb \/ LeaveCb \/ MRoute \/ MNotExist \/ CmdWritten \/ CmdRet \/ Other)
+        /\ (CmdCall \/ MJoinOk \/ MJoinRefused \/ SBegin \/ MLeave \/ JoinCb \/ LeaveCb \/ MRoute \/ MNotExist \/ CmdWritten \/ CmdRet \/ Other)
 \* at most one live connection per key holds structurally (owner is a function); every key is free at the end
 Done == l = Len(Trace) + 1
 \* the application is told of every join decision (the join callback follows the registry's answer, accepted or refused,
